@@ -150,7 +150,9 @@ func TestC10Price(t *testing.T) {
 		}
 		for _, d := range ds {
 			var pr sdk.Dec
-			pn, _ := safely(func() { pr = a.NewaucKeeper.GetPriceFromLinearDecreaseFunction(init, sdk.NewInt(d.tau), sdk.NewInt(d.t)) })
+			pn, _ := safely(func() {
+				pr = a.NewaucKeeper.GetPriceFromLinearDecreaseFunction(init, sdk.NewInt(d.tau), sdk.NewInt(d.t))
+			})
 			if pn {
 				tr.p("f %d %d panic 0", d.tau, d.t)
 			} else {
@@ -168,6 +170,99 @@ type c10Auction struct {
 	locked uint64
 }
 
+type c10PlanOp struct {
+	kind                int // 0 bid, 1 tick, 2 start second
+	who, class          int
+	f1, f2              int
+	dtClass, priceClass int
+}
+
+// everything that defines one TestC10 case
+type c10Case struct {
+	p                          c10Params
+	kinds                      [2]int // 0 vault via keeper msg, 1 vault (no keeper), 2 external
+	twaC0, twaD                uint64
+	collUnits                  [2]int64 // in thousandths of a whole token
+	crCreate, dropTo, extRatio [2]int64 // % CR at creation / after the price drop (vault kinds); external: debt value / collateral value, %
+	reserveClass               int      // 0 none, 1 tiny (1000), 2/3 big
+	plan                       []c10PlanOp
+}
+
+func c10Draw(r *rng) c10Case {
+	premiums := []string{"1.2", "1.0", "1.5", "1.15"}
+	discs := []string{"0.7", "0.65", "0.5", "0.9", "0.833333333333333333"}
+	durs := []uint64{10, 60, 77, 3600, 1000}
+	var cs c10Case
+	p := &cs.p
+	p.premium, p.disc, p.dur = c10Dec(premiums[r.intn(len(premiums))]), c10Dec(discs[r.intn(len(discs))]), durs[r.intn(len(durs))]
+	p.minUsd = r.pickU(0, 100000, 1000000, 100000)
+	p.ki = c10Dec([]string{"0", "0.1", "0.005", "0.1"}[r.intn(4)])
+	p.vaultPenalty = c10Dec([]string{"0.12", "0", "0.05", "0.15"}[r.intn(4)])
+	p.extPenalty = c10Dec([]string{"0.1", "0", "0.03"}[r.intn(3)])
+	p.extBonus = c10Dec([]string{"0", "0.05", "0.1", "0.05"}[r.intn(4)])
+	cs.kinds = [2]int{r.intn(3), r.intn(3)}
+	p.dc, p.dd = 1000000, 1000000
+	allExternal := cs.kinds[0] == 2 && cs.kinds[1] == 2
+	if allExternal && r.chance(50) {
+		p.dc = r.pickI(1000000, 100000000, 1000000000000000000)
+		p.dd = r.pickI(1000000, 1000000000000000000, 1000000)
+	}
+	cs.twaC0 = r.pickU(2000000, 1500000, 12345678, 1000000, 250000)
+	cs.twaD = r.pickU(1000000, 1000000, 990000, 1013000)
+	cs.collUnits = [2]int64{int64(1 + r.intn(5000)), int64(1 + r.intn(5000))}
+	cs.crCreate = [2]int64{int64(160 + r.intn(90)), int64(160 + r.intn(90))}
+	cs.dropTo = [2]int64{int64(90 + r.intn(58)), int64(90 + r.intn(58))}
+	cs.extRatio = [2]int64{int64(40 + r.intn(100)), int64(40 + r.intn(100))}
+	cs.reserveClass = r.intn(4)
+	nops := 4 + r.intn(12)
+	cs.plan = make([]c10PlanOp, nops)
+	for i := range cs.plan {
+		x := r.intn(100)
+		switch {
+		case x < 55:
+			cs.plan[i] = c10PlanOp{kind: 0, who: r.intn(3), class: r.intn(12), f1: 1 + r.intn(99), f2: 1 + r.intn(1000)}
+		case x < 90:
+			cs.plan[i] = c10PlanOp{kind: 1, dtClass: r.intn(9), priceClass: r.intn(20), f1: 70 + r.intn(60)}
+		default:
+			cs.plan[i] = c10PlanOp{kind: 2}
+		}
+		cs.plan[i].f2 += r.intn(2) // keep the stream aligned
+	}
+	return cs
+}
+
+// golit prints the case as a Go literal (VERIF_DEBUG=1), to move a generated case into the corpus
+func (cs c10Case) golit() string {
+	var sb strings.Builder
+	p := cs.p
+	fmt.Fprintf(&sb, "{p: c10Params{premium: c10Dec(%q), disc: c10Dec(%q), ki: c10Dec(%q), vaultPenalty: c10Dec(%q), extPenalty: c10Dec(%q), extBonus: c10Dec(%q), dur: %d, minUsd: %d, dc: %d, dd: %d}, ",
+		p.premium, p.disc, p.ki, p.vaultPenalty, p.extPenalty, p.extBonus, p.dur, p.minUsd, p.dc, p.dd)
+	fmt.Fprintf(&sb, "kinds: %#v, twaC0: %d, twaD: %d, collUnits: %#v, crCreate: %#v, dropTo: %#v, extRatio: %#v, reserveClass: %d, plan: []c10PlanOp{",
+		cs.kinds, cs.twaC0, cs.twaD, cs.collUnits, cs.crCreate, cs.dropTo, cs.extRatio, cs.reserveClass)
+	for _, o := range cs.plan {
+		fmt.Fprintf(&sb, "{kind: %d, who: %d, class: %d, f1: %d, f2: %d, dtClass: %d, priceClass: %d}, ", o.kind, o.who, o.class, o.f1, o.f2, o.dtClass, o.priceClass)
+	}
+	sb.WriteString("}}")
+	return sb.String()
+}
+
+// corpus: regression inputs of repaired defects, always run first (cases 0 ..); they consume no
+// randomness, so VERIF_CASE replays them under every seed
+var c10Corpus = []c10Case{
+	// C10-F3 (fixed): external auction, KeeeperIncentive 0.1 - the closing bids (493593, 3x) used to panic on the
+	// empty InternalKeeperAddress (first build: VERIF_SEED=1 case 0 step 7)
+	{p: c10Params{premium: c10Dec("1.500000000000000000"), disc: c10Dec("0.700000000000000000"), ki: c10Dec("0.100000000000000000"), vaultPenalty: c10Dec("0.150000000000000000"), extPenalty: c10Dec("0.100000000000000000"), extBonus: c10Dec("0.000000000000000000"), dur: 3600, minUsd: 1000000, dc: 1000000, dd: 1000000}, kinds: [2]int{2, 1}, twaC0: 1000000, twaD: 1000000, collUnits: [2]int64{568, 4352}, crCreate: [2]int64{164, 213}, dropTo: [2]int64{141, 130}, extRatio: [2]int64{79, 103}, reserveClass: 3, plan: []c10PlanOp{{kind: 1, who: 0, class: 0, f1: 70, f2: 0, dtClass: 7, priceClass: 18}, {kind: 1, who: 0, class: 0, f1: 104, f2: 1, dtClass: 7, priceClass: 0}, {kind: 0, who: 0, class: 4, f1: 45, f2: 652, dtClass: 0, priceClass: 0}, {kind: 1, who: 0, class: 0, f1: 120, f2: 0, dtClass: 0, priceClass: 11}, {kind: 0, who: 2, class: 1, f1: 98, f2: 568, dtClass: 0, priceClass: 0}, {kind: 0, who: 0, class: 7, f1: 86, f2: 206, dtClass: 0, priceClass: 0}, {kind: 1, who: 0, class: 0, f1: 127, f2: 1, dtClass: 5, priceClass: 18}, {kind: 1, who: 0, class: 0, f1: 102, f2: 0, dtClass: 5, priceClass: 9}, {kind: 1, who: 0, class: 0, f1: 70, f2: 1, dtClass: 1, priceClass: 10}, {kind: 0, who: 1, class: 8, f1: 56, f2: 815, dtClass: 0, priceClass: 0}, {kind: 0, who: 1, class: 0, f1: 37, f2: 730, dtClass: 0, priceClass: 0}, {kind: 2, who: 0, class: 0, f1: 0, f2: 1, dtClass: 0, priceClass: 0}}},
+	// C10-F2 (fixed): external auction, reserve 1000, exhausted close with shortfall 440072 used to succeed with
+	// nothing transferred and a reserve record of -439072 (first build: VERIF_SEED=1 case 92 step 12)
+	{p: c10Params{premium: c10Dec("1.500000000000000000"), disc: c10Dec("0.650000000000000000"), ki: c10Dec("0.000000000000000000"), vaultPenalty: c10Dec("0.120000000000000000"), extPenalty: c10Dec("0.100000000000000000"), extBonus: c10Dec("0.100000000000000000"), dur: 1000, minUsd: 0, dc: 1000000, dd: 1000000}, kinds: [2]int{2, 0}, twaC0: 2000000, twaD: 1000000, collUnits: [2]int64{4890, 1688}, crCreate: [2]int64{222, 179}, dropTo: [2]int64{102, 132}, extRatio: [2]int64{85, 81}, reserveClass: 1, plan: []c10PlanOp{{kind: 0, who: 2, class: 7, f1: 31, f2: 885, dtClass: 0, priceClass: 0}, {kind: 1, who: 0, class: 0, f1: 110, f2: 0, dtClass: 3, priceClass: 10}, {kind: 1, who: 0, class: 0, f1: 87, f2: 0, dtClass: 8, priceClass: 14}, {kind: 0, who: 0, class: 0, f1: 35, f2: 754, dtClass: 0, priceClass: 0}, {kind: 0, who: 1, class: 0, f1: 11, f2: 936, dtClass: 0, priceClass: 0}, {kind: 0, who: 0, class: 1, f1: 43, f2: 105, dtClass: 0, priceClass: 0}, {kind: 0, who: 2, class: 1, f1: 86, f2: 878, dtClass: 0, priceClass: 0}, {kind: 1, who: 0, class: 0, f1: 117, f2: 0, dtClass: 4, priceClass: 15}, {kind: 0, who: 2, class: 7, f1: 74, f2: 902, dtClass: 0, priceClass: 0}, {kind: 1, who: 0, class: 0, f1: 119, f2: 0, dtClass: 5, priceClass: 2}, {kind: 0, who: 0, class: 8, f1: 72, f2: 245, dtClass: 0, priceClass: 0}, {kind: 1, who: 0, class: 0, f1: 73, f2: 1, dtClass: 4, priceClass: 15}, {kind: 0, who: 2, class: 6, f1: 34, f2: 418, dtClass: 0, priceClass: 0}}},
+	// the same history with a big reserve: the exhausted close succeeds and is fully backed
+	{p: c10Params{premium: c10Dec("1.500000000000000000"), disc: c10Dec("0.650000000000000000"), ki: c10Dec("0.000000000000000000"), vaultPenalty: c10Dec("0.120000000000000000"), extPenalty: c10Dec("0.100000000000000000"), extBonus: c10Dec("0.100000000000000000"), dur: 1000, minUsd: 0, dc: 1000000, dd: 1000000}, kinds: [2]int{2, 0}, twaC0: 2000000, twaD: 1000000, collUnits: [2]int64{4890, 1688}, crCreate: [2]int64{222, 179}, dropTo: [2]int64{102, 132}, extRatio: [2]int64{85, 81}, reserveClass: 2, plan: []c10PlanOp{{kind: 0, who: 2, class: 7, f1: 31, f2: 885, dtClass: 0, priceClass: 0}, {kind: 1, who: 0, class: 0, f1: 110, f2: 0, dtClass: 3, priceClass: 10}, {kind: 1, who: 0, class: 0, f1: 87, f2: 0, dtClass: 8, priceClass: 14}, {kind: 0, who: 0, class: 0, f1: 35, f2: 754, dtClass: 0, priceClass: 0}, {kind: 0, who: 1, class: 0, f1: 11, f2: 936, dtClass: 0, priceClass: 0}, {kind: 0, who: 0, class: 1, f1: 43, f2: 105, dtClass: 0, priceClass: 0}, {kind: 0, who: 2, class: 1, f1: 86, f2: 878, dtClass: 0, priceClass: 0}, {kind: 1, who: 0, class: 0, f1: 117, f2: 0, dtClass: 4, priceClass: 15}, {kind: 0, who: 2, class: 7, f1: 74, f2: 902, dtClass: 0, priceClass: 0}, {kind: 1, who: 0, class: 0, f1: 119, f2: 0, dtClass: 5, priceClass: 2}, {kind: 0, who: 0, class: 8, f1: 72, f2: 245, dtClass: 0, priceClass: 0}, {kind: 1, who: 0, class: 0, f1: 73, f2: 1, dtClass: 4, priceClass: 15}, {kind: 0, who: 2, class: 6, f1: 34, f2: 418, dtClass: 0, priceClass: 0}}},
+	// external + incentive, immediate full bid, then a second external auction closed by an over-sized bid
+	{p: c10Params{premium: c10Dec("1.2"), disc: c10Dec("0.7"), ki: c10Dec("0.1"), vaultPenalty: c10Dec("0.12"), extPenalty: c10Dec("0.1"), extBonus: c10Dec("0.05"), dur: 60, minUsd: 0, dc: 1000000, dd: 1000000},
+		kinds: [2]int{2, 2}, twaC0: 2000000, twaD: 1000000, collUnits: [2]int64{1000, 2500}, crCreate: [2]int64{200, 200}, dropTo: [2]int64{120, 120}, extRatio: [2]int64{60, 90}, reserveClass: 2,
+		plan: []c10PlanOp{{kind: 0, who: 0, class: 5, f1: 50, f2: 0}, {kind: 2}, {kind: 1, dtClass: 3, priceClass: 10, f1: 100}, {kind: 0, who: 1, class: 3, f1: 40, f2: 0}, {kind: 0, who: 1, class: 8, f1: 50, f2: 0}}},
+}
+
 func TestC10(t *testing.T) {
 	a, base := newApp(t)
 	tr := newTracer(t, "c10.trace")
@@ -182,57 +277,22 @@ func TestC10(t *testing.T) {
 	liquidator, initiator, funder := addrN(30), addrN(31), addrN(32)
 	null := sdk.AccAddress{}
 
-	premiums := []string{"1.2", "1.0", "1.5", "1.15"}
-	discs := []string{"0.7", "0.65", "0.5", "0.9", "0.833333333333333333"}
-	durs := []uint64{10, 60, 77, 3600, 1000}
-
-	type planOp struct {
-		kind                int // 0 bid, 1 tick, 2 start second
-		who, class          int
-		f1, f2              int
-		dtClass, priceClass int
-	}
-
 	for ci := 0; ci < ncases; ci++ {
-		// ---- draw every random parameter of the case first
-		var p c10Params
-		p.premium, p.disc, p.dur = c10Dec(premiums[r.intn(len(premiums))]), c10Dec(discs[r.intn(len(discs))]), durs[r.intn(len(durs))]
-		p.minUsd = r.pickU(0, 100000, 1000000, 100000)
-		p.ki = c10Dec([]string{"0", "0.1", "0.005", "0.1"}[r.intn(4)])
-		p.vaultPenalty = c10Dec([]string{"0.12", "0", "0.05", "0.15"}[r.intn(4)])
-		p.extPenalty = c10Dec([]string{"0.1", "0", "0.03"}[r.intn(3)])
-		p.extBonus = c10Dec([]string{"0", "0.05", "0.1", "0.05"}[r.intn(4)])
-		kinds := [2]int{r.intn(3), r.intn(3)} // 0 vault via keeper msg, 1 vault (no keeper), 2 external
-		p.dc, p.dd = 1000000, 1000000
-		allExternal := kinds[0] == 2 && kinds[1] == 2
-		if allExternal && r.chance(50) {
-			p.dc = r.pickI(1000000, 100000000, 1000000000000000000)
-			p.dd = r.pickI(1000000, 1000000000000000000, 1000000)
-		}
-		twaC0 := r.pickU(2000000, 1500000, 12345678, 1000000, 250000)
-		twaD := r.pickU(1000000, 1000000, 990000, 1013000)
-		collUnits := [2]int64{int64(1 + r.intn(5000)), int64(1 + r.intn(5000))} // in thousandths of a whole token
-		crCreate := [2]int64{int64(160 + r.intn(90)), int64(160 + r.intn(90))}  // % at creation (vault kinds)
-		dropTo := [2]int64{int64(90 + r.intn(58)), int64(90 + r.intn(58))}      // % CR after the price drop
-		extRatio := [2]int64{int64(40 + r.intn(100)), int64(40 + r.intn(100))}  // external: debt value / collateral value, %
-		reserveClass := r.intn(4)                                               // 0 none, 1 tiny, 2 big, 3 big
-		nops := 4 + r.intn(12)
-		plan := make([]planOp, nops)
-		for i := range plan {
-			x := r.intn(100)
-			switch {
-			case x < 55:
-				plan[i] = planOp{kind: 0, who: r.intn(3), class: r.intn(12), f1: 1 + r.intn(99), f2: 1 + r.intn(1000)}
-			case x < 90:
-				plan[i] = planOp{kind: 1, dtClass: r.intn(9), priceClass: r.intn(20), f1: 70 + r.intn(60)}
-			default:
-				plan[i] = planOp{kind: 2}
-			}
-			plan[i].f2 += r.intn(2) // keep the stream aligned
+		// ---- draw every random parameter of the case first (corpus cases consume no randomness)
+		var cs c10Case
+		if ci < len(c10Corpus) {
+			cs = c10Corpus[ci]
+		} else {
+			cs = c10Draw(r)
 		}
 		if only >= 0 && ci != only {
 			continue
 		}
+		if debug {
+			tr.p("# %s", cs.golit())
+		}
+		p, kinds, twaC0, twaD, collUnits, crCreate, dropTo, extRatio, reserveClass, plan :=
+			cs.p, cs.kinds, cs.twaC0, cs.twaD, cs.collUnits, cs.crCreate, cs.dropTo, cs.extRatio, cs.reserveClass, cs.plan
 
 		// ---- build the case on a cache context
 		ctx, _ := base.CacheContext()
